@@ -4,7 +4,10 @@
    function, the events of a path-sensitive symbolic execution with their path conditions, in a
    normal form (struct-typed identifiers named by type, single-assignment locals and helper
    functions inlined, switch = if-chain, string building normalised, x = x || e read as
-   if e { x = true }, tags.AnyInteresting() read as hasInterestingTags(tags, nil), ...).  The
+   if e { x = true }, tags.AnyInteresting() read as hasInterestingTags(tags, nil), a call of an
+   unexported helper that only returns an expression read as that expression — so a set type's
+   s.has(id) is has(s[id]) and s.add(id) the map write —, conversions between bool types dropped,
+   option closures read through method values, ...).  The
    remaining locals and parameters are named by their type and their declaration order within
    the function — "orb.LineString#0" is the first orb.LineString variable of the function (ls in
    wayToLineString), "bool#0" the first bool (tainted), "bool#1" the second (t) — so renaming a
@@ -114,15 +117,57 @@ Lemma node_feature_model n :
 Proof. reflexivity. Qed.
 
 (* ================= wayToLineString ================= *)
+Definition is_prefix (p s : string) : bool := String.eqb p (String.substring 0 (String.length p) s).
+Definition vals_of (evs : list event) (text : string) : list string :=
+  map ev_val (filter (fun e => String.eqb (ev_kind e) "assign" && String.eqb (ev_text e) text) evs).
+
 Lemma way_line_flow (lon lat : Z) (nonode : bool) :
   let env := env_of [("WayNode.Lon", VZ lon); ("WayNode.Lat", VZ lat); ("Node", VNil nonode)] in
   ceval env (pc_of events_context_wayToLineString "osm.WayNodes" "call" "append(orb.LineString#0, orb.Point{WayNode.Lon, WayNode.Lat})")
   = VB (negb (lon =? 0) || negb (lat =? 0)) /\
   ceval env (pc_of events_context_wayToLineString "osm.WayNodes" "call" "append(orb.LineString#0, orb.Point{Node.Lon, Node.Lat})")
-  = VB (negb (negb (lon =? 0) || negb (lat =? 0)) && negb nonode) /\
-  ceval env (pc_of_val events_context_wayToLineString "osm.WayNodes" "assign" "bool#0" "true")
-  = VB (negb (negb (lon =? 0) || negb (lat =? 0)) && nonode).
+  = VB (negb (negb (lon =? 0) || negb (lat =? 0)) && negb nonode).
 Proof. repeat split; truth_table. Qed.
+
+(* The second result ("tainted": some way node has no coordinates).  Two forms of the source are
+   recognised, each proved equal to the model's [way_line]:
+   - a flag: the function returns (line, flag), the flag starts false and is set exactly in the
+     iterations whose node is neither annotated nor found ([taint_flag_form]);
+   - a count: the function returns (line, len(line) != len(w.Nodes)), where the line starts empty
+     (make(_, 0, _)) and its only other assignments are the two appends above — whose conditions
+     are exclusive and are exactly "the node resolves" (way_line_flow), so each iteration adds one
+     point iff the node resolves ([taint_count_form]; [way_line_taint_is_count]: the model's flag
+     IS that comparison). *)
+Definition returns_of (evs : list event) : list string :=
+  map ev_text (filter (fun e => String.eqb (ev_kind e) "return") evs).
+Definition taint_flag_form (lon lat : Z) (nonode : bool) : Prop :=
+  returns_of events_context_wayToLineString = ["orb.LineString#0, bool#0"] /\
+  ceval (env_of [("WayNode.Lon", VZ lon); ("WayNode.Lat", VZ lat); ("Node", VNil nonode)])
+        (pc_of_val events_context_wayToLineString "osm.WayNodes" "assign" "bool#0" "true")
+  = VB (negb (negb (lon =? 0) || negb (lat =? 0)) && nonode) /\
+  vals_of events_context_wayToLineString "bool#0" = ["false"; "true"].
+Definition taint_count_form : Prop :=
+  returns_of events_context_wayToLineString = ["orb.LineString#0, len(orb.LineString#0)!=len(Way.Nodes)"] /\
+  vals_of events_context_wayToLineString "orb.LineString#0"
+  = ["make(orb.LineString, 0, len(Way.Nodes))"; "append(orb.LineString#0, orb.Point{WayNode.Lon, WayNode.Lat})";
+     "append(orb.LineString#0, orb.Point{Node.Lon, Node.Lat})"].
+Lemma way_line_taint_flow (lon lat : Z) (nonode : bool) : taint_flag_form lon lat nonode \/ taint_count_form.
+Proof.
+  first [ left; split; [vm_compute; reflexivity|split; [truth_table|vm_compute; reflexivity]]
+        | right; split; vm_compute; reflexivity ].
+Qed.
+Lemma omap_length_le {A B} (f : A -> option B) l : (List.length (omap f l) <= List.length l)%nat.
+Proof. induction l as [|a l IH]; cbn; [lia|]. destruct (f a); cbn; lia. Qed.
+Lemma way_line_taint_is_count d ns :
+  snd (way_line d ns) = negb (List.length (fst (way_line d ns)) =? List.length ns)%nat.
+Proof.
+  unfold way_line. cbn [fst snd]. induction ns as [|a l IH]; [reflexivity|].
+  cbn [existsb omap List.length]. destruct (resolve d a) as [p|]; cbn [is_some negb orb List.length].
+  - exact IH.
+  - pose proof (omap_length_le (resolve d) l) as H.
+    destruct (List.length (omap (resolve d) l) =? S (List.length l))%nat eqn:E; [|reflexivity].
+    apply Nat.eqb_eq in E. lia.
+Qed.
 Lemma way_line_model d wn :
   resolve d wn = if negb (wn_lon wn =? 0) || negb (wn_lat wn =? 0) then Some (wn_lon wn, wn_lat wn)
                  else match node_lookup d (wn_id wn) with Some n => Some (n_lon n, n_lat n) | None => None end.
@@ -160,14 +205,11 @@ Proof. vm_compute. split; reflexivity. Qed.
 (* buildPolygon sets id, "id" and "type" from tagObject.FeatureID() read back through Type() and
    Ref() (Model.mk_poly_feature: unpack (fid _ _)); node, way and route features use the element's
    own id (above: "node/" ++ dec(Node.ID), ...).  A change of either kind of tail breaks this. *)
-Definition is_prefix (p s : string) : bool := String.eqb p (String.substring 0 (String.length p) s).
-Definition vals_of (evs : list event) (text : string) : list string :=
-  map ev_val (filter (fun e => String.eqb (ev_kind e) "assign" && String.eqb (ev_text e) text) evs).
 Lemma polygon_identity_flow :
   vals_of events_context_buildPolygon "Feature.ID"
     = ["str(osm.Element#0.FeatureID().Type()) ++ ""/"" ++ dec(osm.Element#0.FeatureID().Ref())"] /\
   vals_of events_context_buildPolygon "Feature.Properties[""id""]" = ["osm.Element#0.FeatureID().Ref()"] /\
-  vals_of events_context_buildPolygon "Feature.Properties[""type""]" = ["string(osm.Element#0.FeatureID().Type())"] /\
+  vals_of events_context_buildPolygon "Feature.Properties[""type""]" = ["osm.Element#0.FeatureID().Type()"] /\
   vals_of events_context_buildPolygon "osm.Element#0" = ["osm.Element(Relation)"; "Way"].
 Proof. vm_compute. repeat split. Qed.
 Lemma plain_identity_flow :
